@@ -49,7 +49,20 @@ Definition nfc_table : list (list N * list N) :=
   [ ([0x65; 0xCC; 0x81], [0xC3; 0xA9]);          (* e + U+0301 -> U+00E9 *)
     ([0x41; 0xCC; 0x8A], [0xC3; 0x85]);          (* A + U+030A -> U+00C5 *)
     ([0xE2; 0x84; 0xAB], [0xC3; 0x85]);          (* U+212B ANGSTROM SIGN -> U+00C5 *)
-    ([0x61; 0x62; 0x6F; 0xCC; 0x88], [0x61; 0x62; 0xC3; 0xB6]) ]. (* "abo" + U+0308 -> "ab" U+00F6 *)
+    ([0x61; 0x62; 0x6F; 0xCC; 0x88], [0x61; 0x62; 0xC3; 0xB6]);  (* "abo" + U+0308 -> "ab" U+00F6 *)
+    ([0x78; 0xCC; 0x81; 0xCC; 0xA3], [0x78; 0xCC; 0xA3; 0xCC; 0x81]);  (* x U+0301 U+0323 -> x U+0323 U+0301 (reordering) *)
+    ([0xE1; 0x84; 0x80; 0xE1; 0x85; 0xA1], [0xEA; 0xB0; 0x80]) ].       (* Hangul U+1100 U+1161 -> U+AC00 *)
+
+(* strings that ARE in NFC although they contain runes whose NFC quick-check value is "Maybe" (combining marks that do not
+   compose with their base, lone Hangul jamo), and the normal forms of the table entries above *)
+Definition nfc_normal : list (list N) :=
+  [ [0x71; 0xCC; 0x81];                          (* q U+0301 *)
+    [0x78; 0xCC; 0xA3; 0xCC; 0x81];              (* x U+0323 U+0301 *)
+    [0x61; 0xCC; 0xB8];                          (* a U+0338 *)
+    [0xE1; 0x85; 0xA1];                          (* U+1161 lone jungseong *)
+    [0xE1; 0x86; 0xA8];                          (* U+11A8 lone jongseong *)
+    [0xEA; 0xB0; 0x80] ].                        (* U+AC00 *)
+Definition in_normal (bs : list N) : bool := existsb (fun k => list_eqb k bs) nfc_normal.
 
 Fixpoint lookup (k : list N) (t : list (list N * list N)) : option (list N) :=
   match t with [] => None | (a, b) :: t' => if list_eqb a k then Some b else lookup k t' end.
@@ -59,7 +72,7 @@ Definition has_high (bs : list N) : bool := existsb (fun b => 0xCC <=? b) bs.
 Definition is_nfc_c (unk : bool) (bs : list N) : bool :=
   match lookup bs nfc_table with
   | Some _ => false
-  | None => if has_high bs then unk else true
+  | None => if in_normal bs then true else if has_high bs then unk else true
   end.
 Definition nfc_norm_c (bs : list N) : list N :=
   match lookup bs nfc_table with Some n => n | None => bs end.
